@@ -34,9 +34,23 @@ def tarr_coq(t):
 
 
 def mk_time(ts, t):
-    """build the implementation object for a tarr description"""
+    """build the implementation object for a tarr description; `via` selects a derived form of the
+    same time object (view of a longer array, strided view, ufunc result, copy) - the property does
+    not care how a time object came about"""
+    via = t.get("via", "direct")
     if t["sc"]:
         a = ts.TimeArray(np.int64(t["p"][0]), time_unit="ps")
+    elif via == "slice":
+        a = ts.TimeArray(np.array([7] + list(t["p"]) + [9], dtype=np.int64), time_unit="ps")[1:-1]
+    elif via == "stride":
+        b = np.zeros(2 * len(t["p"]), dtype=np.int64)
+        b[::2] = t["p"]
+        a = ts.TimeArray(b, time_unit="ps")[::2]
+    elif via == "ufunc":
+        a = ts.TimeArray(np.array(t["p"], dtype=np.int64), time_unit="ps") + 0
+    elif via == "copy":
+        import copy as _copy
+        a = _copy.copy(ts.TimeArray(np.array(t["p"], dtype=np.int64), time_unit="ps"))
     else:
         a = ts.TimeArray(np.array(t["p"], dtype=np.int64), time_unit="ps")
     a.convert_unit(t["u"])
@@ -48,6 +62,10 @@ def mk_bare(d):
     if k == "int":
         return d["v"][0] if d["sc"] else list(d["v"])
     if k == "int64":
+        if not d["sc"] and d.get("via") == "stride":      # a non-contiguous view as operand
+            b = np.zeros(2 * len(d["v"]), dtype=np.int64)
+            b[1::2] = d["v"]
+            return b[1::2]
         return np.int64(d["v"][0]) if d["sc"] else np.array(d["v"], dtype=np.int64)
     if k == "int32":
         return np.int32(d["v"][0]) if d["sc"] else np.array(d["v"], dtype=np.int32)
@@ -56,6 +74,10 @@ def mk_bare(d):
         return v[0] if d["sc"] else v
     if k == "float64":
         v = [float.fromhex(x) for x in d["v"]]
+        if not d["sc"] and d.get("via") == "stride":
+            b = np.zeros(2 * len(v), dtype=np.float64)
+            b[::2] = v
+            return b[::2]
         return np.float64(v[0]) if d["sc"] else np.array(v, dtype=np.float64)
     raise ValueError(k)
 
@@ -355,6 +377,8 @@ def gen_tarr(rng, maxlen=4, lim=LIM // 4, scalar=None):
     u = rng.choice(UNITS)
     sc = rng.random() < 0.3 if scalar is None else scalar
     n = 1 if sc else rng.randint(1, maxlen)
+    if not sc and scalar is None and rng.random() < 0.012:
+        n = rng.choice([255, 257, 1023, 1025, 2049, 4097, 5000])     # long arrays (size-dependent paths)
     f = FACT[u]
     p = []
     for _ in range(n):
@@ -363,7 +387,10 @@ def gen_tarr(rng, maxlen=4, lim=LIM // 4, scalar=None):
             p.append(gen_int_for(rng, f, lim) * f)       # a whole number of its unit
         else:
             p.append(gen_int_for(rng, 1, lim))           # any picosecond count
-    return {"p": p, "u": u, "sc": sc}
+    t = {"p": p, "u": u, "sc": sc}
+    if not sc and rng.random() < 0.25:
+        t["via"] = rng.choice(["slice", "stride", "ufunc", "copy"])
+    return t
 
 
 def gen_bare(rng, unit, n=None, sc=None, lim=LIM // 4):
@@ -371,12 +398,13 @@ def gen_bare(rng, unit, n=None, sc=None, lim=LIM // 4):
     kind = rng.choice(["int", "int64", "int32", "float", "float", "float64"])
     sc = (rng.random() < 0.4) if sc is None else sc
     n = 1 if sc else (n or rng.randint(1, 4))
+    via = "stride" if (not sc and rng.random() < 0.2) else "direct"
     if kind.startswith("float"):
-        return {"kind": kind, "sc": sc, "v": [gen_float_for(rng, f).hex() for _ in range(n)]}
+        return {"kind": kind, "sc": sc, "via": via, "v": [gen_float_for(rng, f).hex() for _ in range(n)]}
     v = [gen_int_for(rng, f, lim) for _ in range(n)]
     if kind == "int32":
         v = [max(-2 ** 31, min(2 ** 31 - 1, x)) for x in v]
-    return {"kind": kind, "sc": sc, "v": v}
+    return {"kind": kind, "sc": sc, "via": via, "v": v}
 
 
 def gen_action(rng):
@@ -414,7 +442,7 @@ def gen_action(rng):
         return {"act": "cmp", "op": rng.choice(["Lt", "Le", "Gt", "Ge", "Eq"]), "self": s, "o": o}
     if r < 0.95:
         return {"act": "reduce", "r": rng.choice(["RMin", "RMax", "RSum", "RPtp"]),
-                "self": gen_tarr(rng, maxlen=6, lim=LIM // 16)}
+                "self": gen_tarr(rng, maxlen=6, lim=LIM // 16384)}
     return {"act": "convert", "self": gen_tarr(rng), "unit": rng.choice(UNITS)}
 
 
